@@ -171,7 +171,11 @@ def main():
         for name in sorted(os.listdir(SEEDED)):
             if not os.path.isdir(os.path.join(SEEDED, name)):
                 continue
-            r = detect(name, tier, SIBLINGS.get(name))
+            try:
+                r = detect(name, tier, SIBLINGS.get(name))
+            except Exception as e:      # (a patch that no longer applies must not end the sweep)
+                print('%s vs - %s: ERROR %s' % (name, tier, str(e)[:150]))
+                r = {'error': {'exit': -1, 'wall_s': 0, 'first_violation': str(e)[:200]}}
             results.setdefault(name, {})[tier] = r
             results[name]['detected_' + tier] = any(v['exit'] == 1 for v in r.values())
             if name in NOT_A_VIOLATION:
